@@ -29,3 +29,7 @@ Proof.
   - rewrite <- !exp_plus. replace (ln x / 3 + ln x / 3 + ln x / 3) with (ln x) by field.
     apply exp_ln. lra.
 Qed.
+
+Global Arguments Rcbrt : simpl never.
+Global Arguments Rleb : simpl never.
+Global Arguments Rltb : simpl never.
